@@ -21,7 +21,7 @@ ASSUMPTIONS = [
     "values of DO UPDATE SET may be qualified with the target table (needed to tell them from EXCLUDED.col)",
 ]
 
-NSHAPE = 12
+NSHAPE = 13
 
 
 def pin(v, n):
@@ -67,6 +67,8 @@ def sources(shape):
         return [Src(t, "t", False)], True
     if shape == 11:  # plain table, WHERE mentions an outside, aliased instance of the SAME table through a same-named column
         return [Src(t, "t", False)], True
+    if shape == 12:  # plain table, the only outside reference sits deep inside a WHERE criterion (BETWEEN bound, IN member, function argument)
+        return [Src(t, "t", False)], True
     raise AssertionError(shape)
 
 
@@ -108,8 +110,23 @@ def build_select(shape, d, opt):
             crit = crit & (col("c15", 0) != 3) if opt[3] else (col("c15", 0) != 3) & crit
         return q.where(crit)
 
+    def foreign_nested(q):
+        # position of the outside column from (o2, o3): BETWEEN upper bound / BETWEEN lower bound / IN-list member / function argument
+        out = Field("c10", table=Table("outer"))
+        refs.append(("c10", "out", False))
+        own = col("c11", 0)
+        if opt[2] and opt[3]:
+            return q.where(own.between(0, out))
+        if opt[2]:
+            return q.where(own.between(out, 9))
+        if opt[3]:
+            return q.where(own.isin([1, out]))
+        return q.where(fn.Coalesce(own, 1) == fn.Coalesce(2, out))
+
     if shape == 11:
         q = same_table(q)
+    if shape == 12:
+        q = foreign_nested(q)
     if shape == 10 and opt[3]:
         q = foreign(q)  # the outside reference comes first, purely local criteria follow
     if opt[0]:
@@ -183,8 +200,8 @@ def judge_refs(sql, d, refs, srcs, multi):
     bounds={"quick": {}, "thorough": {}},
     timeout={"quick": 120, "thorough": 300},
     witness=[dict(shape=5, d=2, o0=True, o1=True, o2=True, o3=True), dict(shape=0, d=1, o0=True, o1=False, o2=True, o3=False)],
-    doc="SELECT statements over 12 source shapes (plain / aliased / schema-qualified table, two FROM items, join with plain "
-        "/ aliased table / subquery, FROM subquery, aliased self-join, CTE reference, foreign table in WHERE, aliased outside instance of the same table in WHERE) x clause "
+    doc="SELECT statements over 13 source shapes (plain / aliased / schema-qualified table, two FROM items, join with plain "
+        "/ aliased table / subquery, FROM subquery, aliased self-join, CTE reference, foreign table in WHERE, aliased outside instance of the same table in WHERE, outside column only as BETWEEN bound / IN member / function argument) x clause "
         "subsets (where, group by + having, order by; o3: outside reference first / columns given by name) x 6 dialect classes; fields in select / on / where / group by / "
         "having / order by",
 )
